@@ -221,9 +221,9 @@ def gen_hostile(rng, st):
                        rng.choice([b"HEAD@{99}", b"xHEAD@{1}", b"HEAD@{1}HEAD@{2}", b"HEAD@{}", b"HEAD@{-1}",
                                    b"HEAD", b"HEAD@{1", b"HEAD@{99999999999999999999}"]))
     if k == 6:
-        return c_switch(rng.choice([b"nope", b"", b"../x"]))
+        return c_switch(rng.choice([b"nope", b"", b"../x", b".", b".."] + HOSTILE_BRANCHES))
     if k == 7:
-        return c_branch_delete(rng.choice([st.head or b"main", b"nope"]))
+        return c_branch_delete(rng.choice([st.head or b"main", b"nope", b".", b"..", b""] + HOSTILE_BRANCHES[:6]))
     if k == 8:
         return c_cat_file(rng.choice(["-t", "-p"]), rng.choice(["zz", "0" * 40, "abc", "A" * 40]))
     if k == 9:
@@ -357,7 +357,8 @@ def gen_step(rng, snap, prof):
 
 
 CFG_VALUES = [b"Al Bo", b"a=b c", b"[x]", b"# hash", b'"quoted"', "Jürgen".encode(), b"x", b"a = b",
-              b"v1", b"two  spaces"[:3], b"e@x.yy", b"first.last+tag@sub.example.org", b"Ann 100% Lee", b"50%", b"%s %d%%"]
+              b"v1", b"two  spaces"[:3], b"e@x.yy", b"first.last+tag@sub.example.org", b"Ann 100% Lee", b"50%", b"%s %d%%",
+              b"Ada\tLovelace", b"tab\tin\tvalue"]
 
 
 def gen_config(rng, prof):
